@@ -63,6 +63,23 @@ Record prdr := mkPR {
 
 Definition pr_init : prdr := mkPR [] 0 [] false.
 
+(* first half of Read(): complete the size word if possible.  The bool says "unrecoverable error". *)
+Definition pread_hdr (mtu : N) (st : prdr) (stream : list byte) (a1 : N) : prdr * list byte * bool :=
+  if lenN (pr_hdr st) <? SZW then
+    let n := N.min a1 (SZW - lenN (pr_hdr st)) in
+    let hdr := pr_hdr st ++ takeN n stream in
+    let stream1 := dropN n stream in
+    if lenN hdr =? SZW then
+      match rd32 hdr with
+      | Some (sz, _) =>
+          if mtu <? sz then (mkPR hdr (pr_size st) (pr_data st) true, stream1, true)
+          else if sz =? 0 then (mkPR [] 0 [] false, stream1, false)       (* special case for empty packets *)
+          else (mkPR hdr sz [] false, stream1, false)
+      | None => (mkPR hdr (pr_size st) (pr_data st) false, stream1, false)
+      end
+    else (mkPR hdr (pr_size st) (pr_data st) false, stream1, false)
+  else (st, stream, false).
+
 (* Read(buffer, usize): the child has a1 bytes available for the first child Read() and a2 for the second.
    Returns the new state, the rest of the stream and Some bytes (the packet, cut to usize; [] when Read()
    returns 0) or None for an error. *)
@@ -70,21 +87,7 @@ Definition pread (mtu : N) (st : prdr) (usize : N) (stream : list byte) (a1 a2 :
   : prdr * list byte * option (list byte) :=
   if pr_err st then (st, stream, None)
   else
-    let '(st1, stream1, bad) :=
-      if lenN (pr_hdr st) <? SZW then
-        let n := N.min a1 (SZW - lenN (pr_hdr st)) in
-        let hdr := pr_hdr st ++ takeN n stream in
-        let stream1 := dropN n stream in
-        if lenN hdr =? SZW then
-          match rd32 hdr with
-          | Some (sz, _) =>
-              if mtu <? sz then (mkPR hdr (pr_size st) (pr_data st) true, stream1, true)
-              else if sz =? 0 then (mkPR [] 0 [] false, stream1, false)       (* special case for empty packets *)
-              else (mkPR hdr sz [] false, stream1, false)
-          | None => (mkPR hdr (pr_size st) (pr_data st) false, stream1, false)
-          end
-        else (mkPR hdr (pr_size st) (pr_data st) false, stream1, false)
-      else (st, stream, false) in
+    let '(st1, stream1, bad) := pread_hdr mtu st stream a1 in
     if bad then (st1, stream1, None)
     else if (lenN (pr_hdr st1) =? SZW) && (lenN (pr_data st1) <? pr_size st1) then
       let n := N.min a2 (pr_size st1 - lenN (pr_data st1)) in
